@@ -39,7 +39,7 @@ def plan(tier, seed):
     nx = 5 if tier == 'quick' else 6
     chunks += [{'kind': 'extracted', 'n': nx, 'mod': 16, 'rem': r} for r in range(16)]
     return {
-        'chunks': chunks,
+        'chunks': chunks + [{'kind': 'clipipe-grammar'}],
         'rule': 'every ordered, non-deleting, non-erasing rule in canonical form with rank <= %d and <= %d variables '
                 '(%d rules) as a one-rule grammar x {no reordering, optimal} x {deterministic} U {Markov v,h in '
                 '0..3 x nofanout on/off}%s; plus every grammar extracted from single trees of all shapes n <= N '
@@ -48,7 +48,8 @@ def plan(tier, seed):
                 'rank > 2' % (R, V, lins, '' if tier != 'quick' else ' (quick: Markov grid v,h in {0,1,3} only for rank <= 4)'),
         'bound': 'rank <= %d, variables <= %d' % (R, V),
         'exhaustive': True,
-        'assumptions': ['RHS labels of the enumerated rules are pairwise distinct so that a reordering can be read off the result'],
+        'assumptions': ['driver differential (vt/clipipe.py): `treetools grammar` in 11 type / Markov / format / prefix combinations on a six-sentence treebank (same rule under contexts that differ at depth 1 and in fan-out only, one production with two linearizations, a five-child node with equal middle labels) must write, under the prefix given, what extraction + binarization + writer give through the library',
+                        'RHS labels of the enumerated rules are pairwise distinct so that a reordering can be read off the result'],
     }
 
 
@@ -224,6 +225,9 @@ def _labelled(lin, labels):
 
 
 def check_case(case):
+    if 'grammar_run' in case:
+        from .. import clipipe
+        return clipipe.replay_grammar(case)
     with quiet():
         if 'mt' in case:
             return check_extracted(case['mt'], case['cfg'])
@@ -231,6 +235,11 @@ def check_case(case):
 
 
 def run_chunk(chunk):
+    if chunk.get('kind') == 'clipipe-grammar':
+        from .. import clipipe
+        res = Result()
+        clipipe.run_grammar(res)
+        return res
     res = Result()
     with quiet():
         if chunk['kind'] == 'extracted':
